@@ -109,6 +109,12 @@ func (c *Checked) checkDot(i int, op Op, res *OpResult) {
 		return
 	}
 	errMode := op.ErrFrom > 0 && op.ErrFrom-1 < len(c.R.Res) && c.R.Res[op.ErrFrom-1].Verdict != VOK && !c.R.Res[op.ErrFrom-1].Facts.Escaped
+	if errMode && !c.R.Res[op.ErrFrom-1].Facts.CanVis {
+		// an error that carries nothing to visualize (the invoked function's
+		// own error, a foreign error): the picture is the one of the container
+		errMode = false
+		c.probe("dot_error_without_info")
+	}
 	// clusters by catalogue function
 	byCat := map[int]*dotCl{}
 	for ci := range g.Clusters {
